@@ -157,6 +157,11 @@ impl CodeCache {
       if index != ip && (index ^ ip) & !0x3fff != 0 {
         break;
       }
+      // An instruction that reaches into the next region is left to the
+      // interpreter, as a block of its own
+      if index != ip && crate::mem::straddles_rom_region(index, mem) {
+        break;
+      }
       let code_slice = self.get_executable_memory_segment(index, mem);
       if code_slice.len() < 1 {
         break;
